@@ -53,7 +53,7 @@ Proof.
   rewrite Hst, C0, Ht. change (2147483652 =? 2147483652) with true. change (0 =? 0) with true. cbn [andb]. cbv iota.
   destruct (get_segmented c1 (rs_seq r) false) as [[c2 oss] code].
   assert (forall X Y Z : hstate * list hout, fst X = fst Y -> True) as _ by auto.
-  destruct oss as [ss|]; [destruct (code =? STATUS_SENDING); [|destruct (code =? STATUS_EXPIRED); [|destruct (ss_last_resp ss)]]|]; cbn [fst h_deliv h_next];
+  destruct oss as [ss|]; [destruct (code =? STATUS_SENDING); [|destruct (code =? STATUS_EXPIRED); [|destruct (ss_last_resp ss)]]|destruct (0 <? snd (sm_sar (e_msg e)))]; cbn [fst h_deliv h_next];
     unfold put_delivery; apply dget_dset_same.
 Qed.
 
